@@ -11,6 +11,7 @@
 -/
 import Driver.ExprIO
 import LibfiveModel.Optimize
+import LibfiveModel.Deck
 open Libfive Driver.ExprIO
 
 namespace Driver.C07
@@ -37,6 +38,9 @@ def modelOpt (t : E32) : E32 :=
 def showE (t : E32) : String := Canon.key t
 
 def big (t : E32) : Bool := !smallerThan 2500 t
+
+def dumpTapeS (T : TapeM) : String :=
+  s!"root {T.root} " ++ " ".intercalate (T.t.map fun c => s!"{repr c.op}:{c.id}:{c.a}:{c.b}")
 
 def cmpCanon (a b : E32) : Bool := Canon.approxEq (Canon.canon a) (Canon.canon b)
 
@@ -104,6 +108,26 @@ def handle (st : St) (line : String) : St × List String :=
                else s!"MISMATCH tape-wf case {st.case} node {id}"
       ({ st with tape := some T }, [o])
     | none => (st, [s!"MISMATCH parse case {st.case} tape {id}"])
+  | "R" :: "tape-nflat" :: id :: n :: _ =>
+    -- tie of the Deck::Deck model (LibfiveModel/Deck.lean): recover the node list from the real deck
+    -- (node at position i = expression in slot n - i), test walk()'s specification on it, re-emit the
+    -- tape with the model and compare clause by clause with the real one
+    match st.deck, st.tape with
+    | some d, some T =>
+      let n := nat! n
+      let nmax := (T.t.map (·.id)).foldl max (max n (max d.x (max d.y d.z)))
+      let arr := decompileA d nmax T.t
+      let rootE := arr.getD T.root Expr.invalid
+      if big rootE then (st, [s!"skip big case {st.case} deckmodel {id}"]) else
+      let flat := (List.range n).map fun i => arr.getD (n - i) Expr.invalid
+      let spec := Libfive.Deck.topoFlatB flat
+      let M := Libfive.Deck.build flat rootE
+      let o1 := if spec then s!"ok walk-spec case {st.case} node {id}"
+                else s!"MISMATCH walk-spec case {st.case} node {id} n= {n}"
+      let o2 := if M.t == T.t && M.root == T.root then s!"ok deckmodel case {st.case} node {id}"
+                else s!"MISMATCH deckmodel case {st.case} node {id} model= {dumpTapeS M} real= {dumpTapeS T}"
+      (st, [o1, o2])
+    | _, _ => (st, [s!"MISMATCH parse case {st.case} tape-nflat {id}"])
   | "R" :: "tape-opt" :: id :: "dag" :: rest =>
     match parseDag rest, st.deck, st.tape with
     | some realOpt, some d, some T =>
